@@ -37,13 +37,14 @@ def matchesSorted (l : List Score) : Bool :=
 
 /-- "files are ordered by non-increasing score except for the single documented promotion of a file with a novel
     extension into third place": either sorted, or sorted once the third file is taken out, and that file's
-    extension differs from the first two's and its score is at least 9/10 of the file it displaced -/
+    extension differs from the first two's and its score is at least 9/10 of, and not above, the file it displaced
+    (without the upper bound any file could sit in third place) -/
 def filesSortedExceptPromotion (l : List FileEnt) : Bool :=
   sortedDesc (l.map (·.score)) ||
   match l with
   | a :: b :: c :: d :: r =>
     sortedDesc ((a :: b :: d :: r).map (·.score)) &&
-    c.ext != a.ext && c.ext != b.ext && decide (d.score * 9 ≤ c.score * 10)
+    c.ext != a.ext && c.ext != b.ext && decide (d.score * 9 ≤ c.score * 10) && decide (c.score ≤ d.score)
   | _ => false
 
 /-- "the same search returns … the same scores every time", "turning score debugging on never changes scores or
